@@ -1,12 +1,13 @@
 import Octo.Drv.Codec
 import Octo.Spec.NumFuncs
+import Octo.Model.Overload
 /-!
   C13 driver: what the Lean model prints for one op line (`model`) and the property oracle applied to what the
   implementation printed (`judge`).  Op lines are described in `harness/c13.go`.
   Values use the shared codec except that a time is `U<unix seconds>:<nanoseconds>:<loc>` (= `time.Unix(sec, nsec)`).
 -/
 namespace Octo.Drv.C13
-open Octo Octo.Codec Octo.Num Octo.Coal Octo.Spec13
+open Octo Octo.Codec Octo.Num Octo.Coal Octo.Spec13 Octo.Ovl
 
 /-- parse one value; `U<sec>:<nsec>:<loc>` is `time.Unix(sec, nsec)` -/
 partial def parseV : List String → Option (Value × List String)
@@ -62,6 +63,33 @@ partial def parseTyped : Nat → List String → Option (List (Ty × Value))
     let rest ← parseTyped k r'
     pure ((t, v) :: rest)
 
+def parseTys : Nat → List String → Option (List Ty × List String)
+  | 0, r => some ([], r)
+  | k + 1, toks => do
+    let (t, r) ← parseTy toks
+    let (ts, r') ← parseTys k r
+    pure (t :: ts, r')
+
+def showTable (ds : List Descr) : String :=
+  String.intercalate " ; " (ds.map fun d =>
+    let s := if d.strict then "s" else "n"
+    match d.typeFn with
+    | some _ => "F " ++ s
+    | none => String.intercalate " " ((s!"P{d.args.length}" :: d.args.map encodeTy) ++ [">", encodeTy d.out, s]))
+
+def showResolved (argTys : List Ty) : Option Resolved → String
+  | none => "panic"
+  | some r =>
+    let parts := r.asserts.map fun ts => String.intercalate " " (s!"a{ts.length}" :: ts.map encodeTy)
+    let tail := if r.asserts.all List.isEmpty then ["T " ++ encodeTy (callType r argTys)] else []
+    String.intercalate " " (toString r.idx :: parts ++ tail)
+
+def evalLine (asTy : Bool) (name : String) (tvs : List (Ty × Value)) : String :=
+  let ts := tvs.map (·.1)
+  match resolve name ts with
+  | none => "panic"
+  | some r => showOutcome asTy (evalCall name r ts (tvs.map (·.2)))
+
 def model (toks : List String) : String :=
   match toks with
   | "fn" :: name :: idx :: rest =>
@@ -91,6 +119,16 @@ def model (toks : List String) : String :=
         pure (showOutcome false (typeAssert ids v))).getD "bad-op"
   | "tcast" :: id :: rest =>
     (do let (v, _) ← parseV rest; pure (showOutcome false (typeCast id.toNat! v))).getD "bad-op"
+  | ["table", name] => showTable (descrs name)
+  | "resolve" :: name :: k :: rest =>
+    (do let (ts, _) ← parseTys k.toNat! rest
+        pure (showResolved ts (resolve name ts))).getD "bad-op"
+  | "evalfn" :: name :: k :: rest =>
+    (do let tvs ← parseTyped k.toNat! rest
+        pure (evalLine false name tvs)).getD "bad-op"
+  | "evalfnty" :: name :: k :: rest =>
+    (do let tvs ← parseTyped k.toNat! rest
+        pure (evalLine true name tvs)).getD "bad-op"
   | _ => "bad-op"
 
 /-- structural equality of values as printed (the codec is injective on well-formed values) -/
@@ -163,6 +201,32 @@ def judge (toks : List String) (out : List String) : String :=
   | "tcast" :: id :: rest =>
     (match parseV rest with
      | some (v, _) => meets (.exact (if v.rank == id.toNat! then v else .null)) .any out
+     | none => "bad unparsable-op")
+  | "resolve" :: name :: k :: rest =>
+    (match parseTys k.toNat! rest with
+     | some (ts, _) =>
+       -- every argument carries at most one run-time type assertion …
+       if out.any (fun t => t.startsWith "a" && t != "a0" && t != "a1" && (t.drop 1).toString.all Char.isDigit) then
+         "bad argument-wrapped-in-several-type-assertions"
+       -- … and the overload is the first that certainly fits, else the first that may fit
+       else if String.intercalate " " out == showResolved ts (resolve name ts) then "ok"
+       else "bad wrong-overload expected " ++ showResolved ts (resolve name ts)
+     | none => "bad unparsable-op")
+  | "evalfn" :: name :: k :: rest
+  | "evalfnty" :: name :: k :: rest =>
+    (match parseTyped k.toNat! rest with
+     | some tvs =>
+       let ts := tvs.map (·.1)
+       let vals := tvs.map (·.2)
+       match resolve name ts with
+       | none => if out == ["panic"] then "ok" else "bad resolved-an-unknown-function"
+       | some r =>
+         let passes := (r.asserts.zip vals).all fun av => av.1.all fun t => (targetIds t).contains av.2.rank
+         let e : Expect :=
+           if !passes then .error
+           else if r.descr.strict && (ts.zip vals).any (fun tv => nullable tv.1 && tv.2.rank == 0) then .exact .null
+           else specFn name r.idx vals
+         meets e (if r.asserts.all List.isEmpty then callType r ts else .any) out
      | none => "bad unparsable-op")
   | _ => "ok"
 
